@@ -188,7 +188,7 @@ def run(ctx):
                 if name2.split("-")[0] != name.split("-")[0] or name2 != name:
                     doubles.append((name + "+" + name2, r2))
         rng.shuffle(doubles)
-        reqs += doubles[:(25 if q else 400)]
+        reqs += doubles[:(25 if q else 100)]
         for ri, (name, r) in enumerate(reqs):
             got = outcome(concretise_and_run, W, r, rng)
             if got[0] != "ok":
